@@ -240,7 +240,7 @@ Section BlockSim.
       match l with
       | [] => ret ([], st)
       | child :: rest =>
-          let num := (i + start)%Z in
+          let num := Z.min (i + start) 999999999 in
           let pfx := if ordered then zstr num ++ [46; 32]%N else bullet ++ [sp] in
           let sub := if ordered then spaces (length (zstr num) + 2) else [sp; sp] in
           let p := r_prefix st in let p2 := r_prefix2 st in
@@ -277,8 +277,8 @@ Section BlockSim.
       destruct HR as [E1 [E2 [E3 E4]]]. destruct a as [p p2 su sk cu ti], b as [p' p2' su' sk' cu' ti'].
       cbn in E1, E2, E3, E4. subst p' p2' sk' cu'. unfold Pfx in HP. cbn [r_prefix2] in HP.
       cbn [itemsf]. cbv zeta. unfold bind. cbn [r_prefix r_prefix2].
-      set (pfx := if o then zstr (i + st0) ++ [46; 32] else bu ++ [sp]).
-      set (sub := if o then spaces (length (zstr (i + st0)) + 2) else [sp; sp]).
+      set (pfx := if o then zstr (Z.min (i + st0) 999999999) ++ [46; 32] else bu ++ [sp]).
+      set (sub := if o then spaces (length (zstr (Z.min (i + st0) 999999999)) + 2) else [sp; sp]).
       assert (HRa : R (set_prefixes (p ++ pfx) (p2 ++ sub) (RS p p2 su sk cu ti)) (set_prefixes (p ++ pfx) (p2 ++ sub) (RS p p2 su' sk cu ti'))).
       { repeat split. }
       assert (HPa : Pfx (set_prefixes (p ++ pfx) (p2 ++ sub) (RS p p2 su sk cu ti))).
